@@ -4,6 +4,8 @@
   seeded.py new <id> <property> <file> <old> <new> [--needs "..."]   create seeded/<id>/patch.diff from an in-place edit
   seeded.py run [id ...] [--tier quick]                              apply each patch to /repo, run its checks, revert
   seeded.py suite <id>                                               apply, run the repository's own suite, revert
+  seeded.py lab-run [id ...]                                         the same as run, in a scratch copy under /tmp/mutlab (never touches /repo)
+  seeded.py lab-remove                                               remove the scratch copy
 """
 import json, os, subprocess, sys
 VERIF = os.path.dirname(os.path.dirname(os.path.abspath(__file__)))
@@ -79,6 +81,61 @@ def run(ids, tier):
     for r in rows:
         print("%-28s %-22s %s" % r)
 
+LAB = "/tmp/mutlab"
+
+def lab_setup():
+    """A scratch copy of /verif next to a scratch worktree of /repo (both under /tmp/mutlab), so
+    that seeded changes can be tried while a long run is reading /repo's working tree. The
+    authoritative results are those of `run` (against /repo itself)."""
+    os.makedirs(LAB, exist_ok=True)
+    lrepo, lverif = os.path.join(LAB, "repo"), os.path.join(LAB, "verif")
+    head = sh(["git", "-C", REPO, "rev-parse", "HEAD"]).stdout.strip()
+    if not os.path.exists(lrepo):
+        r = sh(["git", "-C", REPO, "worktree", "add", "--detach", lrepo, head])
+        assert r.returncode == 0, r.stderr
+    else:
+        sh(["git", "-C", lrepo, "checkout", "--", "."])
+        sh(["git", "-C", lrepo, "checkout", "--detach", head])
+    r = sh(["rsync", "-a", "--delete", "--exclude", "target", "--exclude", ".git", "--exclude", "replays", VERIF + "/", lverif + "/"])
+    assert r.returncode == 0, r.stderr
+    for c in ("engine/Cargo.toml", "engine-loom/Cargo.toml"):
+        f = os.path.join(lverif, c)
+        if os.path.exists(f):
+            t = open(f).read().replace('"/repo', '"%s' % lrepo)
+            open(f, "w").write(t)
+    return lrepo, lverif
+
+def lab_run(ids):
+    lrepo, lverif = lab_setup()
+    if not ids:
+        ids = sorted(os.listdir(SEEDED))
+    env = dict(os.environ); env["OHRS_REPO"] = lrepo; env["RUST_BACKTRACE"] = "0"
+    for sid in ids:
+        meta = json.load(open(os.path.join(SEEDED, sid, "meta.json")))
+        r = sh(["git", "-C", lrepo, "apply", os.path.join(SEEDED, sid, "patch.diff")])
+        if r.returncode != 0:
+            print("%-28s PATCH-FAILS %s" % (sid, r.stderr[:200])); continue
+        try:
+            for prop in meta.get("checks", [meta["breaks"]]):
+                r = sh([os.path.join(lverif, "check"), prop, "--tier", "quick"], cwd=lverif, env=env)
+                lines = r.stdout.splitlines()
+                viol = [l for l in lines if l.startswith("VIOLATION")]
+                first = ""
+                for i, l in enumerate(lines):
+                    if l.startswith("VIOLATION"):
+                        first = (lines[i + 1] if i + 1 < len(lines) else "").strip()[:200]; break
+                status = "DETECTED" if (r.returncode == 1 and viol) else ("MACHINERY(%d)" % r.returncode if r.returncode not in (0, 1) else "MISSED")
+                print("%-28s %-22s %s" % (sid, prop + ":" + status + "(lab)", first), flush=True)
+                if status.startswith("MACHINERY"):
+                    print(r.stdout[-1500:])
+        finally:
+            sh(["git", "-C", lrepo, "checkout", "--", "."])
+            sh(["git", "-C", lrepo, "clean", "-fdq", "--", "opening-hours", "opening-hours-syntax", "compact-calendar", "opening-hours-py"])
+
+def lab_remove():
+    sh(["git", "-C", REPO, "worktree", "remove", "--force", os.path.join(LAB, "repo")])
+    sh(["rm", "-rf", LAB])
+
 def suite(sid):
     if not apply(sid): return
     try:
@@ -99,3 +156,5 @@ if __name__ == "__main__":
         if "--tier" in a: tier = a[a.index("--tier") + 1]; a = [x for i, x in enumerate(a) if x != "--tier" and (i == 0 or a[i - 1] != "--tier")]
         run(a[1:], tier)
     elif a[0] == "suite": suite(a[1])
+    elif a[0] == "lab-run": lab_run(a[1:])
+    elif a[0] == "lab-remove": lab_remove()
